@@ -100,6 +100,49 @@ prop('C08',
                      'and the end-of-stream clauses decided by a full drain; backlog sizes up to hundreds exercise the node pool.'),
          level_note='schedules sampled; one sender goroutine chain (send order is total)'))
 
+prop('C09',
+     level='exploration',
+     rule=('generated: fork.Map (pure/try/lift), FMap (tryf/liftf), Filter, Partition, ForEach, Void x 1..6 workers x inputs of 0..16 elements (duplicates) x input capacity 0..3 x scripts of sends, closes, receives and RELEASE moves: '
+           'every user-function call blocks on its own gate inside the bubble and a release move opens the gate of the j-th pending call, so the script fixes which in-flight call completes first (classes: random, no cancel, '
+           'one call held until everything else is done and the input closed, cancel with calls in flight); second tier: the same scenario families free-running under -race with GOMAXPROCS in {1,2,4,16}; '
+           'oracle: delivered multisets are sub-multisets of what the sequential stage delivers at every receive and equal at close (Try errors likewise), per-argument call count = multiplicity, in-flight calls <= workers at every quiescent point, '
+           'no output observed closed while a call is in flight, closure/cancel/leak clauses as C06 (fair completion, census, bubble exit), no race report; '
+           'non-trivial = workers >= 2, input >= workers+1, and some release opened a gate other than the oldest; distinct = different canonical scenario'),
+     assumptions=E3_ASSUME + ['on cancel the harness opens all gates (a stage cannot terminate a user function that blocks forever)',
+                              'Lift-mode fork stages are checked for closure, leaks and sub-multisets only (each worker stops at its own first failure)',
+                              'in the free-running tier a hang is a 20 s timeout and reported as inconclusive; termination is decided by the bubble tier'],
+     parts=[
+         dict(name='gated', engine='E4', pkg='pipes', test='TestC09',
+              quick=dict(cases=5000, shards=6), thorough=dict(cases=60000, shards=16, timeout=3000)),
+         dict(name='race', engine='E4', pkg='pipes', test='TestC09Race', race=True, replay_test='TestReplayFree', env=dict(GORACE='halt_on_error=1'),
+              quick=dict(cases=500, shards=4), thorough=dict(cases=5000, shards=16, timeout=3000)),
+     ],
+     manifest=dict(
+         engine='E4', design_ref='3/E4, 4/C09',
+         technique='property-based testing (rapid) with gated user calls in synctest bubbles (the script owns the completion order of in-flight calls) + free-running runs under the race detector; multiset differential against the sequential stage',
+         level_text=('The harness owns the order in which in-flight user calls complete, which worker starves and how elements spread over workers, so "every element exactly once" and "closed only after every worker finished" '
+                     'are checked under adversarial completion orders instead of whatever the scheduler happens to do; the -race tier adds real parallelism.'),
+         level_note='completion orders sampled; data races are reported only for schedules the -race tier actually runs'))
+
+prop('C10',
+     level='exploration',
+     rule=('generated: 1..6 workers x input length by class (empty, <= workers, up to 15) x 7 commutative monoids (sum/0, product/1 over distinct primes, max/MinInt, min/MaxInt, and/all-ones, bit-union/0, sum mod p) '
+           'with element encodings that keep partial results distinguishable x capacity 0..3 x scripts with release moves gating every Combine call (so the distribution of elements over workers and the merge order are scripted) x optional cancel; '
+           'plus the free-running -race tier; oracle: exactly one value, equal to pipe.Fold run on the same input with the same monoid and to a plain loop from Empty(), then closed; under cancel nothing or that value; '
+           'non-trivial = identity different from the zero value, or input >= workers >= 2; distinct = different canonical scenario'),
+     assumptions=E3_ASSUME + ['integer overflow wraps (still commutative and associative); product inputs are distinct primes with at most 15 elements'],
+     parts=[
+         dict(name='gated', engine='E4', pkg='pipes', test='TestC10',
+              quick=dict(cases=5000, shards=4), thorough=dict(cases=50000, shards=16, timeout=3000)),
+         dict(name='race', engine='E4', pkg='pipes', test='TestC10Race', race=True, replay_test='TestReplayFree', env=dict(GORACE='halt_on_error=1'),
+              quick=dict(cases=400, shards=2), thorough=dict(cases=4000, shards=16, timeout=3000)),
+     ],
+     manifest=dict(
+         engine='E4', design_ref='3/E4, 4/C10',
+         technique='property-based testing (rapid): differential against pipe.Fold and a plain loop over commutative monoids with non-zero identities, gated Combine calls in synctest bubbles, -race tier',
+         level_text='Monoids whose identity is not the zero value and whose partial results are distinguishable make a wrong start value, a lost partial or a doubly merged partial change the result; gates script the distribution of elements over workers.',
+         level_note='monoid family is finite (7); distributions sampled'))
+
 prop('C11',
      level='exploration',
      rule=('generated: Emit (pure / try / lift with failing indices) and Unfold (pure / lift) x capacity 0..4 x function family x frequency 1..3 units of {1ns, 1ms, 1s} x consumer either always ready or with a pattern of '
